@@ -77,7 +77,7 @@ def same_result(a, b):
 def run(ctx):
     from fast_ticc import admm
     rng = np.random.default_rng(ctx.seed)
-    ctx.proof_layer(allowed_axioms=list(core.R_AX) + [core.FLOAT_SPEC], coq_deps=["Corr/RunAdmm", "Corr/RunViterbi"])
+    ctx.proof_layer(allowed_axioms=list(core.R_AX) + [core.FLOAT_SPEC], coq_deps=["Corr/RunAdmm", "Corr/RunViterbi", "Proofs/GenEquivLS"], gen=["solver", "unique_values"])
     core.note_drift(ctx, ANCHORS)
     cov = core.LineCoverage()
     with cov:
